@@ -388,6 +388,12 @@ pub fn grid(tier: &str, max_tick: u64) -> Vec<Cfg> {
             }
         }
     }
+    // far-future timestamps (beyond 2^64 ns) with buckets wide enough for the bucket-by-bucket scan to get there
+    for (n, wsecs) in [(1usize, 1u64 << 32), (4, 1 << 32), (3, 1 << 30), (7, 1 << 30), (4, 1 << 31)] {
+        let wh = Duration::from_secs(wsecs);
+        out.push(Cfg { n, w: wh, emb: Emb::new("huge", n, wh, max_tick, 11), pay: k });
+        k += 1;
+    }
     out
 }
 
@@ -478,12 +484,32 @@ fn record_run<P: Pay>(rng: &mut Rng, cfg: &Cfg, nops: usize, out: &mut impl Writ
     let mut cur: u64 = 0;
     let mut live: Vec<u32> = Vec::new();
     let mut oplog: Vec<Value> = Vec::new();
-    for _ in 0..nops {
+    // every fourth history contains floods: 66..105 events scheduled for the current instant in one go (more than any
+    // fixed-size fast path for same-instant events can hold), followed by ordinary operations
+    let flood = rng.chance(1, 4);
+    let mut burst_left = 0u64;
+    // a history with floods ends by fetching everything that is left (the order of a flood only shows when it is drained)
+    for step in 0..(nops + if flood { 400 } else { 0 }) {
         watchdog::enter(|| json!({"recorded_history_so_far": oplog, "cfg": cfg.describe()}).to_string());
-        let choice = rng.below(100);
+        let mut choice = rng.below(100);
+        if step >= nops {
+            if q.is_empty() {
+                break;
+            }
+            burst_left = 0;
+            choice = 60;
+        }
+        if flood && step < nops && burst_left == 0 && (nid as usize) < 130 && rng.chance(1, 12) {
+            burst_left = 66 + rng.below(40);
+        }
+        let in_burst = burst_left > 0 && (nid as usize) < 250;
+        if in_burst {
+            burst_left -= 1;
+            choice = 0;
+        }
         if choice < 45 && (nid as usize) < 250 {
             // add: adaptive deltas (ties with cur, ties with each other, neighbours, far)
-            let delta = match rng.below(10) {
+            let delta = if in_burst { 0 } else { match rng.below(10) {
                 0 | 1 | 2 => 0,
                 3 | 4 => 1,
                 5 => 2,
@@ -491,8 +517,8 @@ fn record_run<P: Pay>(rng: &mut Rng, cfg: &Cfg, nops: usize, out: &mut impl Writ
                 7 => rng.below(40),
                 8 => 3,
                 _ => rng.below(12),
-            };
-            let past = cur > 0 && rng.chance(1, 15);
+            } };
+            let past = !in_burst && cur > 0 && rng.chance(1, 15);
             let t = if past { cur - 1 - rng.below(cur.min(3)) } else { (cur + delta).min(max_tick) };
             let p = P::make(if past { 9999 } else { nid }, &ctr);
             let r = catch_unwind(AssertUnwindSafe(|| q.add(emb.map(t), p)));
